@@ -397,6 +397,9 @@ func (f *FakePeer) run() {
 							f.send(c, packet.BLOCK, b)
 							f.Pushed.Add(1)
 						}
+						// (well after the blocks: an announcement that overtakes them turns them into announced blocks, which
+						// wake the post-processor up only once enough of them are queued)
+						time.Sleep(3 * time.Second)
 						f.send(c, packet.STATS, f.Stats.Serialize())
 						return
 					}
